@@ -3,6 +3,7 @@
 package play
 
 import (
+	"errors"
 	"fmt"
 	"math/big"
 	"sort"
@@ -162,17 +163,29 @@ type Model struct {
 	Vel map[string]int
 }
 
+// ErrUnstatable marks a setting that a Standard MIDI File has no way to state (a tempo
+// outside 1..2^24-1 microseconds per quarter, a numerator above 255, a denominator that is
+// not a power of two up to 128): no output is right for it, only a refusal.
+var ErrUnstatable = errors.New("outside the SMF-expressible domain")
+
 func tempoAlts(bpm uint64) []string {
-	// microseconds per quarter within < 1 of 60,000,000/bpm
+	// microseconds per quarter within < 1 of 60,000,000/bpm, in the 24 bits the event has;
+	// 0 is no tempo
 	x := new(big.Rat).SetFrac(big.NewInt(60000000), new(big.Int).SetUint64(bpm))
-	fl := new(big.Int).Quo(x.Num(), x.Denom()).Int64()
+	q := new(big.Int).Quo(x.Num(), x.Denom())
+	if !q.IsInt64() || q.Int64() > 0xFFFFFF {
+		return nil
+	}
+	fl := q.Int64()
 	alts := []int64{fl}
 	if !x.IsInt() {
 		alts = append(alts, fl+1)
 	}
 	var r []string
 	for _, us := range alts {
-		r = append(r, fmt.Sprintf("meta 51 %06x", us))
+		if us >= 1 && us <= 0xFFFFFF {
+			r = append(r, fmt.Sprintf("meta 51 %06x", us))
+		}
 	}
 	return r
 }
@@ -260,12 +273,16 @@ func (m *Model) Expect(insts []Inst, fl Flags, up RoundChoice) (evs []Exp, total
 			if bpm == 0 {
 				return nil, 0, nil, fmt.Errorf("instance %d: bpm 0", i)
 			}
-			evs = append(evs, Exp{tick, tempoAlts(bpm), i})
+			ta := tempoAlts(bpm)
+			if len(ta) == 0 {
+				return nil, 0, nil, fmt.Errorf("instance %d: bpm %d: %w", i, bpm, ErrUnstatable)
+			}
+			evs = append(evs, Exp{tick, ta, i})
 		}
 		if emitMeter {
 			a, ok := meterAlts(meter)
 			if !ok {
-				return nil, 0, nil, fmt.Errorf("instance %d: meter %v outside the SMF-expressible domain", i, meter)
+				return nil, 0, nil, fmt.Errorf("instance %d: meter %v: %w", i, meter, ErrUnstatable)
 			}
 			evs = append(evs, Exp{tick, a, i})
 		}
